@@ -82,7 +82,17 @@ pub fn run(args: &Args) -> i32 {
         let seen: Mutex<HashSet<Vec<String>>> = Mutex::new(HashSet::new());
         let rep2: Arc<Report> = rep.clone();
         h.state_oracle = Some(Box::new(move |w: &World| {
-            for d in w.docs.iter() {
+            let mut pool: Vec<Automerge> = w.docs.clone();
+            // pairwise merges: cuts that mix concurrent branches only exist in merged documents
+            for i in 0..w.docs.len() {
+                for j in (i + 1)..w.docs.len() {
+                    let mut a = w.docs[i].clone();
+                    a.merge(&mut w.docs[j].clone())
+                        .map_err(|e| Violation::new("merge-ok", "merge Err", format!("{:?}", e)))?;
+                    pool.push(a);
+                }
+            }
+            for d in pool.iter() {
                 // each distinct document (by heads) is checked once
                 if !seen.lock().unwrap().insert(hstr(&d.get_heads())) && !crate::util::replaying() {
                     continue;
